@@ -239,7 +239,9 @@ func (rec *goxRecorder) recordCallExpr(ctx *blockCtx, v *ast.CallExpr, fnt types
 }
 
 func (rec *goxRecorder) recordCompositeLit(v *ast.CompositeLit, typ types.Type) {
-	rec.Type(v.Type, typesutil.NewTypeAndValueForType(typ))
+	if v.Type != nil { // `{"a": 1}` and elided element types have no type expression to record
+		rec.Type(v.Type, typesutil.NewTypeAndValueForType(typ))
+	}
 	rec.Type(v, typesutil.NewTypeAndValueForValue(typ, nil, typesutil.Value))
 }
 
